@@ -24,6 +24,11 @@ def AggFn.sqlName : AggFn → String
   | .min => "MIN" | .max => "MAX" | .median => "MEDIAN" | .stddev => "STDDEV" | .stddevPop => "STDDEV_POP"
   | .variance => "VARIANCE" | .variancePop => "VARIANCE_POP" | .sumDistinct => "SUM_DISTINCT"
 
+/-- duplicate elimination (keeps the last occurrence of each element; structural, proof-friendly) -/
+def dedup {α : Type} [BEq α] : List α → List α
+  | [] => []
+  | x :: xs => if xs.contains x then dedup xs else x :: dedup xs
+
 def nonNull (vs : List Val) : List Val := vs.filter (· != .null)
 def nums (vs : List Val) : List Rat := vs.filterMap fun v => match v with | .num q => some q | _ => none
 def rsum (l : List Rat) : Rat := l.foldl (· + ·) 0
@@ -48,9 +53,9 @@ def AggFn.apply (f : AggFn) (vs : List Val) : Val :=
   let nn := nonNull vs
   match f with
   | .count => .num nn.length
-  | .countDistinct => .num nn.eraseDups.length
+  | .countDistinct => .num (dedup nn).length
   | .sum => if (nums nn).isEmpty then .null else .num (rsum (nums nn))
-  | .sumDistinct => if (nums nn).isEmpty then .null else .num (rsum (nums nn).eraseDups)
+  | .sumDistinct => if (nums nn).isEmpty then .null else .num (rsum (dedup (nums nn)))
   | .avg => if (nums nn).isEmpty then .null else .num (rsum (nums nn) / (nums nn).length)
   | .min => pickBy .lt nn
   | .max => pickBy .gt nn
@@ -63,9 +68,10 @@ def AggFn.apply (f : AggFn) (vs : List Val) : Val :=
   | .variance | .stddev => varianceOf true (nums nn)
   | .variancePop | .stddevPop => varianceOf false (nums nn)
 
-/-- `GROUP BY`: groups in first-occurrence order, NULLs group together. -/
+/-- `GROUP BY`: one group per distinct key (NULLs group together); the order of groups is
+unspecified in SQL, here it is the order of last occurrences. -/
 def groupBy {α κ : Type} [BEq κ] (key : α → κ) (l : List α) : List (κ × List α) :=
-  (l.map key).eraseDups.map fun k => (k, l.filter fun x => key x == k)
+  (dedup (l.map key)).map fun k => (k, l.filter fun x => key x == k)
 
 /-- expression of the aggregated SELECT list / HAVING -/
 inductive AExpr where
